@@ -1162,6 +1162,13 @@ class PSBTIn:
                 )
             if self.tx_in.prev_index >= len(self.prev_tx.tx_outs):
                 raise ValueError("input refers to an output index that does not exist")
+            if self.prev_out:
+                # BIP174 allows both UTXO records, but they have to describe the same output
+                spent = self.prev_tx.tx_outs[self.tx_in.prev_index]
+                if self.prev_out.serialize() != spent.serialize():
+                    raise ValueError(
+                        "witness UTXO does not match the output of the previous transaction"
+                    )
         if self.prev_out or (self.prev_tx and self.use_segwit_signature()):
             # witness input (BIP174 allows describing it by the whole previous transaction)
             if not (
